@@ -52,7 +52,8 @@ func isAdminOrExplicitPassword(groupname, user string, creds group.ClientCredent
 		return false
 	}
 
-	if user != "" && desc.Users != nil {
+	if user != "" && creds.Username != nil && desc.Users != nil {
+		// only if a password was actually provided
 		u, ok := desc.Users[user]
 		if ok {
 			ok, err := u.Password.Match(creds.Password)
